@@ -207,17 +207,24 @@ def constructors_in_dim(ctx):
         R = Resolver(b)
         rets = [e for _, e in R.return_expr()]
         return b, R, (rets[0] if len(rets) == 1 else None)
+    def part(e, name):
+        # the struct literal, or the from_tree(tree, dim) constructor (its own body is an instance of the wrapper table)
+        if e is None:
+            return None
+        if is_call(e, 'AffTree::from_tree') and len(e[2]) == 2:
+            return e[2][0] if name == 'tree' else e[2][1]
+        return agg_field(e, name)
     b, R, e = ret_agg('AffTree::from_aff')
     if b is not None:
-        d = agg_field(e, 'in_dim') if e is not None else None
-        root = agg_field(e, 'tree') if e is not None else None
+        d = part(e, 'in_dim')
+        root = part(e, 'tree')
         ok = d is not None and is_call(d, 'AffFuncBase::indim') and s(d[2][0]) == ('param', 'func') and root is not None and any(s(x) == ('param', 'func') for x in walk(root))
         (ctx.ok if ok else ctx.bad)('C04.R2', 'AffTree::from_aff#in_dim', 'in_dim = indim(func), func stored at the root' if ok else
                                     'from_aff does not declare the input dimension of the function it stores', b.span)
     b, R, e = ret_agg('AffTree::with_capacity')
     if b is not None:
-        d = agg_field(e, 'in_dim') if e is not None else None
-        root = agg_field(e, 'tree') if e is not None else None
+        d = part(e, 'in_dim')
+        root = part(e, 'tree')
         ok = d is not None and s(d) == ('param', 'dim') and root is not None and any(is_call(x, 'AffFuncBase::identity') and s(x[2][0]) == ('param', 'dim') for x in walk(root))
         (ctx.ok if ok else ctx.bad)('C04.R2', 'AffTree::with_capacity#in_dim', 'in_dim = dim, root = identity(dim)' if ok else
                                     'with_capacity does not pair the declared input dimension with an identity root of that dimension', b.span)
